@@ -142,6 +142,28 @@ def run(ctx):
                   "after a store error the writer's cursor is rebuilt from %s: frames of the failed transaction stay in the segment and the retry appends duplicate LSNs behind them" % sorted(calls),
                   site=rc.loc())
 
+    # ---------------- R10 the recovered retry index answers for EVERY recovered submission
+    rep.rule("C10.R10", "A1/sibling: the two functions that rebuild the durable submission-acceptance (retry) index from a recovery report — on open and after a store "
+                        "error — take every entry of the recovered submission index: no filtering adaptor between `entries()` and the collected map")
+    DROP = r"Iterator>?::(filter|filter_map|take_while|skip_while|skip|take|step_by|map_while)$|::retain(_mut)?$|bool::then_some$|bool::then$"
+    sib = {}
+    for nm in ("from_config", "refresh_cursor_from_store_for_writer"):
+        g = prog.fn(TH + "TrustedRuntimeWal::" + nm)
+        bodies = [g] + [prog.fns[c] for c in prog.closures_in(g.id)]
+        rsi = g.call_sites(r"recover_submission_index$")
+        rep.check(len(rsi) == 1, "C10.R10", "retry-index:%s:anchor" % nm, "rebuilt from recover_submission_index", "%s: recover_submission_index sites %d" % (nm, len(rsi)), site=g.loc())
+        drops = []
+        for b_ in bodies:
+            for bi in b_.call_sites(DROP):
+                # only adaptors applied to the recovered index: their receiver derives from the recover_submission_index result
+                t_ = b_.blocks[bi]["t"]
+                ats = b_.origins().of_operand(t_["args"][0], deep=True) if t_["args"] else frozenset()
+                if b_ is not g or any(a.kind == "call" and a.key[0].endswith("recover_submission_index") for a in ats):
+                    drops.append(((b_.callee_of(t_) or "").rsplit("::", 1)[-1], b_.block_line(bi)))
+        sib[nm] = drops
+        rep.check(not drops, "C10.R10", "retry-index:%s:keeps-every-entry" % nm, "every recovered submission enters the retry index",
+                  "%s drops recovered submissions from the retry index (%s): after a restart a retry of such a submission is not recognised and is committed again" % (nm, drops[:2]), site=g.loc())
+
     # ---------------- R9 a fresh writer epoch starts dense with the durable log
     rep.rule("C10.R9", "sibling agreement: recovery requires dense LSNs (validate_recovery_frame_order: lsn == previous + 1), so the first LSN of a fresh "
                        "writer epoch may only be `next(an LSN that was written)` or the caller's recovered next LSN — never `next(previous epoch's started_at_lsn)`, "
